@@ -213,7 +213,17 @@ def last_default(nk):
 
 # ------------------------------------------------------------------ real code
 def run_impl(case):
-    obs = {"oracle": [], "tags": ["kind:" + case["kind"]]}
+    obs = {"oracle": [], "tags": ["kind:" + case["kind"]], "stage": "setup"}
+    try:
+        return _run_impl(case, obs)
+    except Exception as e:  # the real code raised on a valid input: a failure of the property, not of the machinery
+        obs["oracle"].append(f"{obs['stage']}: the real code raised {type(e).__name__}: {str(e)[:200]}")
+        obs["crashed"] = True
+        obs["tags"].append("impl-raised")
+        return obs
+
+
+def _run_impl(case, obs):
     fail = obs["oracle"].append
     if case["kind"] == "freqs":
         n, d = case["n"], float(F(case["d"]))
@@ -229,6 +239,7 @@ def run_impl(case):
     if case["kind"] == "mesh":
         rng = random.Random(case["sub"])
         obs["m"] = fieldio.mesh_json(m)
+        obs["stage"] = "Mesh.fftn on a valid mesh"
         k = m.fftn()
         kr = m.fftn(rfft=True)
         obs["k"], obs["kr"] = fieldio.mesh_json(k), fieldio.mesh_json(kr)
@@ -236,6 +247,7 @@ def run_impl(case):
         check_kmesh(m, kr, True, fail, "Mesh.fftn(rfft=True)")
         if k.bc != "" or len(k.subregions) or k.region.tolerance_factor != m.region.tolerance_factor:
             fail("Mesh.fftn keeps bc/subregions or changes the tolerance factor")
+        obs["stage"] = "Mesh.ifftn of Mesh.fftn"
         b = k.ifftn()
         check_back(m, b, fail, "mesh.fftn().ifftn()")
         b2 = kr.ifftn(rfft=True, shape=nlist)
@@ -301,6 +313,7 @@ def run_impl(case):
     res = {}
 
     # ---- forward, full
+    obs["stage"] = "Field.fftn on a valid field"
     Ff = f.fftn()
     res["fftn"] = Ff
     check_kmesh(m, Ff.mesh, False, fail, "Field.fftn mesh")
@@ -340,6 +353,7 @@ def run_impl(case):
             fail(f"fftn mapping {Ff.vdim_mapping} from {f.vdim_mapping}")
     if Ff.unit != f.unit or Ff.nvdim != nv:
         fail("fftn changes unit or component count")
+    obs["stage"] = "Field.fftn (linearity / component probes)"
     # linear, component-wise
     arr2 = ints((*nlist, nv), case["cplx"])
     g = df.Field(m, nvdim=nv, value=arr2, **kw)
@@ -352,6 +366,7 @@ def run_impl(case):
         if not np.allclose(one.array[..., 0], Ff.array[..., c], rtol=0, atol=tol):
             fail(f"fftn: component {c} transformed alone differs from component {c} of the transform")
     # round trip
+    obs["stage"] = "Field.ifftn of Field.fftn"
     back = Ff.ifftn()
     res_back = back
     check_back(m, back.mesh, fail, "Field.fftn().ifftn() mesh")
@@ -364,6 +379,7 @@ def run_impl(case):
 
     # ---- forward, real
     if not case["cplx"]:
+        obs["stage"] = "Field.rfftn on a valid real field"
         Fr = f.rfftn()
         res["rfftn"] = Fr
         check_kmesh(m, Fr.mesh, True, fail, "Field.rfftn mesh")
@@ -393,6 +409,7 @@ def run_impl(case):
                 fail(f"rfftn: zero-frequency cell {zero} holds {Fr.array[zero].tolist()}, the plain sum is {arr.sum(axis=tuple(range(nd))).tolist()}")
         if named and (list(Fr.vdims) != list(Ff.vdims) or Fr.vdim_mapping != Ff.vdim_mapping):
             fail("rfftn labels/mapping differ from fftn's")
+        obs["stage"] = f"Field.irfftn(shape={nlist}) of Field.rfftn"
         rb = Fr.irfftn(shape=nlist)
         check_back(m, rb.mesh, fail, "Field.rfftn().irfftn(shape=n) mesh")
         if rb.array.shape == arr.shape and not np.allclose(rb.array, arr, rtol=0, atol=tol):
@@ -400,12 +417,14 @@ def run_impl(case):
         if named and (list(rb.vdims) != list(f.vdims) or rb.vdim_mapping != f.vdim_mapping or rb.unit != f.unit):
             fail("irfftn(rfftn(f)) labels/mapping/unit not restored")
         if nlist[-1] % 2 == 0 or nlist[-1] == 1:
+            obs["stage"] = "Field.irfftn() of Field.rfftn, last count even or 1"
             rb2 = Fr.irfftn()
             check_back(m, rb2.mesh, fail, "Field.rfftn().irfftn() mesh [last count even or 1]")
             if rb2.array.shape == arr.shape and not np.allclose(rb2.array, arr, rtol=0, atol=tol):
                 fail("irfftn(rfftn(f)) differs from f although the last count is even")
 
     # ---- inverse of integer k-space data (correspondence of ifftn / irfftn themselves)
+    obs["stage"] = "building k-space fields"
     kmesh = m.fftn()
     kkw = {}
     if kw.get("vdims"):
@@ -431,6 +450,7 @@ def run_impl(case):
     obs["ifftn_st"] = st
     if st == "ok":
         check_back(m, val.mesh, fail, "Field.ifftn mesh (k-mesh of the original)")
+        obs["stage"] = "Field.fftn of Field.ifftn"
         fb = val.fftn()
         if fb.array.shape == karr.shape and not np.allclose(fb.array, karr, rtol=0, atol=1e-10 * (float(np.abs(karr).sum()) + 1)):
             fail("fftn(ifftn(F)) differs from F")
@@ -471,6 +491,7 @@ def run_impl(case):
             fail(f"irfftn(shape={tshape}): mesh n {val.mesh.n.tolist()}, array {val.array.shape}, expected {exp_n}")
         elif not case["cplx"] or True:
             # forward real transform of the result returns the half spectrum
+            obs["stage"] = "Field.rfftn of Field.irfftn"
             rr = df.Field(val.mesh, nvdim=nv, value=np.real(val.array)).rfftn()
             if rr.array.shape == A.shape and not np.allclose(rr.array, A, rtol=0, atol=1e-10 * (float(np.abs(A).sum()) + 1)):
                 fail(f"rfftn(irfftn(G, shape={tshape})) differs from the Hermitian-consistent half spectrum G")
@@ -484,6 +505,8 @@ def run_impl(case):
 
 # ------------------------------------------------------------------ model side
 def model_requests(case, obs):
+    if obs.get("crashed"):
+        return []
     if case["kind"] == "freqs":
         return [dict(op="freqs", n=case["n"], d=case["d"])]
     if case["kind"] == "mesh":
@@ -555,6 +578,8 @@ def cmp_cf(name, fld, r, dis):
 
 def compare(case, obs, rs):
     dis = []
+    if obs.get("crashed"):
+        return dis
     if case["kind"] == "freqs":
         r = rs[0]
         for key in ("fftfreq", "rfftfreq", "shifted"):
